@@ -1,31 +1,51 @@
 /-
   Soundness of the TRAVERSE CLIENT RULE (pyvc/traverse_rule.py), checked with `lean lean/TraverseRule.lean`
-  (core Lean 4 only, no Mathlib).
+  (core Lean 4 only, no Mathlib; the file declares nothing it does not prove).
 
-  What contracts/C04.py proves about `_traverse_dfs` (for any tree, start node r and callbacks f = enter, g = leave) is a
-  statement about the SEQUENCE OF CALLBACK CALLS: every call is an "enabled" event
+  WHAT IS PROVED HERE.  An abstract EVENT MODEL of a traversal: a tree given by `parent` / `kids` / `Sub` (subtree of the start
+  node `r`), client callbacks `f` (enter) and `g` (leave) that thread a client state σ, and the relation
 
-     enter x pre : x lies in the subtree, x was not entered before, and either x = r and pre = none, or the parent p of x was
-                   entered and not yet left and pre = the value p's enter call returned;
-     leave x args: x was entered and not yet left, all children of x were left, and args = the values the children's leave
-                   calls returned, in child order;
+     Step s t     one callback call in ghost state s = (ent, left, vE, vL, σ):
+       enter x pre : Sub x,  x not entered before,  and either  x = r ∧ pre = none
+                     or  x ≠ r ∧ the parent p of x is entered and NOT YET LEFT ∧ pre = the value p's enter call returned;
+       leave x     : x entered and not left before,  every child of x already left,  and the argument list is
+                     (kids x).map vL  = the values the children's leave calls returned, in child order;
+     Reach s0 s   s is reached from s0 by finitely many such calls.
 
-  nothing but these calls touches the client's state, and at the end every subtree node was entered and left and the result
-  is the value of r's leave call.  `Step` below is exactly one such event (the client state σ is threaded through the real
-  callbacks f and g), `Reach` is "reachable by a finite sequence of events".
+  Theorems (all about this model, for arbitrary types, trees, callbacks and predicates):
+     inv_of_reach                  the three premises of the client rule (init / enter step / leave step, with the structural
+                                   facts LEFT ⊆ ENT ⊆ Sub, ENT parent-closed, and stability of Qe / Ql) make
+                                   `Inv` = J ∧ structure ∧ "Qe of every entered node's value" ∧ "Ql of every left node's value"
+                                   an invariant of every reachable state;
+     traverse_rule_sound           hence, in a reachable state in which exactly the subtree is entered and left:
+                                   J Sub Sub σ  ∧  Ql r (value of r's leave call)      -- the conclusion the rule assumes;
+     traverse_rule_sound_no_enter  the same for a traversal without an enter callback (f := do nothing); the enter premise becomes
+     traverse_rule_sound_no_leave  "J survives ENT + x in an unchanged state" (resp. LEFT + x): the SILENT-step obligations.
 
-  The client rule lets a caller reason WITHOUT the traversal: from
-     init   J ∅ ∅ σ₀
-     enter  for ANY state with J (and the structural facts LEFT ⊆ ENT ⊆ Sub, ENT closed under parents) and any enabled x
-            whose incoming value satisfies Qe(parent, ·):   J (ENT + x) LEFT (state after f)  ∧  Qe x (value returned)
-     leave  for ANY state with J and any enabled x whose children's values satisfy Ql:   J ENT (LEFT + x) (state after g)  ∧  Ql x (value)
-  conclude, for the final state:   J Sub Sub σ  ∧  Ql r (result).
-  Qe / Ql may read the client's state provided they are STABLE: once true of a node entered (left) and a value, they stay true
-  through every later callback call (premises `∀ y v, E y → Qe σ y v → Qe σ' y v`, likewise Ql); predicates that do not read
-  callback-modified state at all are the special case the rule implementation recognises syntactically.
-
-  `traverse_rule_sound` is that statement.  The link between this schema and the first-order obligations the engine emits
-  (init / enter-step / leave-step, conclusion assumed afterwards) is by inspection of pyvc/traverse_rule.py.
+  WHAT IS NOT PROVED HERE, and where it is proved instead (`./check C04`, contracts/C04.py, on the real `_traverse_dfs`):
+     * that every callback call the real function makes IS a `Step`:   obligations (kind `callback`, proved at the call from the
+       loop invariants, for a table of symbolic size, any numbering, any start node)
+          C04/_traverse_dfs/enter/called-for-a-node-of-the-subtree-not-entered-before
+          C04/_traverse_dfs/enter/start-node-gets-None-any-other-node-the-value-its-parents-call-returned-and-the-parent-is-not-left-yet
+          C04/_traverse_dfs/leave/called-for-an-entered-node-not-left-before-all-of-whose-children-are-left
+          C04/_traverse_dfs/leave/receives-exactly-the-values-its-childrens-calls-returned-in-table-order
+       = the premises of `Step.enter` / `Step.leave`, clause by clause (ent x / left x read as "the enter / leave callback was
+       called with x": observation counters ecnt / lcnt; vE / vL = the observation arrays ev / lv; kids x = the rows naming x as
+       parent in table order, rrow(x, 0 .. nch(x, n) - 1));
+     * that nothing else touches the client's state between two callback calls: `_traverse_dfs` reads and writes only its own
+       locals (children_map, stack, params, vals) - by inspection of the carrier, checked by the frame obligations (frozen inputs);
+     * the end-state hypotheses hallE / hallL / result:   postconditions
+          C04/_traverse_dfs/post/enter-exactly-once-per-subtree-node-and-never-outside,  .../leave-exactly-once-...,
+          C04/_traverse_dfs/post/returns-the-start-nodes-value;
+     * termination of the stack loop (needed for "the run ends"): NOT proved, bounded stand-in only.
+  The link between the schema proved here and the first-order obligations pyvc/traverse_rule.py emits at a client's call site
+  (hInit = .../traverse/init/..., hEnter = .../traverse/enter/invariant-preserved + returned-value-as-specified + stable/...,
+  hLeave likewise, hSilent = .../invariant-preserved-where-no-...-callback-is-given; the hypotheses of hEnter / hLeave are exactly
+  the facts `apply` assumes about the arbitrary ENT / LEFT / node / incoming values) is by inspection of that file: both are
+  written from this text.  The client state σ of this model is the state named by `Rule(modifies=...)`: the rule havocs exactly that
+  state before a step, and each step carries the frame obligation `.../callback-changes-only-the-state-the-rule-declares` (every
+  other list / dict / array / object reachable from the carrier's frame, and every other local, is syntactically the same after
+  the real callback and its ghost code; extension values of pyvc/ext_*.py that are not stock containers are not followed).
 -/
 
 namespace TraverseRule
@@ -219,5 +239,74 @@ theorem traverse_rule_sound
   have e2 : s.left = Sub := funext (fun x => propext (hallL x))
   rw [e1, e2] at hJ
   exact ⟨hJ, hQl r ((hallL r).mpr hroot)⟩
+
+/-! ### Traversals with only one callback
+
+`swc_utils.traverse(topology, leave=g)` passes no `enter`: the traversal still enters every node, it just runs no client code
+there.  In the event model this is the enter callback that leaves the state alone and returns a unit value.  The enter premise
+of the rule then shrinks to: `J` survives `ENT` growing by an enabled node in an UNCHANGED state - the obligation
+`<carrier>/traverse/enter/invariant-preserved-where-no-enter-callback-is-given` of pyvc/traverse_rule.py (emitted whenever the
+client's `J` reads `ENT`; a `J` that does not mention `ENT` satisfies it by reflexivity).  Symmetrically for a missing `leave`. -/
+
+/-- the rule for a traversal WITHOUT an enter callback -/
+theorem traverse_rule_sound_no_enter
+    (J : (α → Prop) → (α → Prop) → S → Prop) (Ql : S → α → W → Prop)
+    (s0 : St α Unit W S)
+    (hkids : ∀ x p, Sub x → x ≠ r → parent x = some p → x ∈ kids p)
+    (h0e : ∀ x, ¬ s0.ent x) (h0l : ∀ x, ¬ s0.left x)
+    (hInit : J s0.ent s0.left s0.σ)
+    (hSilent : ∀ (E L : α → Prop) (σ : S) (x : α),
+        J E L σ → (∀ c, L c → E c) → (∀ c, E c → Sub c) → (∀ c p, E c → c ≠ r → parent c = some p → E p) →
+        Sub x → ¬ E x → ¬ L x → (x = r ∨ (x ≠ r ∧ ∃ p, parent x = some p ∧ E p ∧ ¬ L p)) →
+        J (fun y => y = x ∨ E y) L σ)
+    (hLeave : ∀ (E L : α → Prop) (σ : S) (x : α) (wv : α → W),
+        J E L σ → (∀ c, L c → E c) → (∀ c, E c → Sub c) → (∀ c p, E c → c ≠ r → parent c = some p → E p) →
+        E x → ¬ L x → (∀ c, c ∈ kids x → E c ∧ L c) →
+        (∀ p, x ≠ r → parent x = some p → E p ∧ ¬ L p) →
+        (∀ c, c ∈ kids x → Ql σ c (wv c)) →
+        J E (fun y => y = x ∨ L y) (g σ x ((kids x).map wv)).1 ∧ Ql (g σ x ((kids x).map wv)).1 x (g σ x ((kids x).map wv)).2 ∧
+        (∀ y w, L y → Ql σ y w → Ql (g σ x ((kids x).map wv)).1 y w))
+    (s : St α Unit W S) (hr : Reach parent kids Sub r (fun σ _ _ => (σ, ())) g s0 s)
+    (hallE : ∀ x, s.ent x ↔ Sub x) (hallL : ∀ x, s.left x ↔ Sub x) (hroot : Sub r) :
+    J Sub Sub s.σ ∧ Ql s.σ r (s.vL r) := by
+  refine traverse_rule_sound parent kids Sub r (fun σ _ _ => (σ, ())) g J (fun _ _ _ => True) Ql s0 hkids h0e h0l hInit ?_ ?_ s hr hallE hallL hroot
+  · intro E L σ x pre hJ hLE hES hEP hsub hne hnl hpre
+    refine ⟨?_, trivial, fun _ _ _ _ => trivial, fun _ _ _ h => h⟩
+    apply hSilent E L σ x hJ hLE hES hEP hsub hne hnl
+    cases hpre with
+    | inl h => exact Or.inl h.1
+    | inr h =>
+      obtain ⟨hx, p, _, hp, hpe, hpl, _, _⟩ := h
+      exact Or.inr ⟨hx, p, hp, hpe, hpl⟩
+  · intro E L σ x wv hJ hLE hES hEP hent hnl hk hpar hvals
+    have h := hLeave E L σ x wv hJ hLE hES hEP hent hnl hk hpar hvals
+    exact ⟨h.1, h.2.1, fun _ _ _ _ => trivial, h.2.2⟩
+
+/-- the rule for a traversal WITHOUT a leave callback (the traversal then returns nothing: only `J Sub Sub` is concluded) -/
+theorem traverse_rule_sound_no_leave
+    (J : (α → Prop) → (α → Prop) → S → Prop) (Qe : S → α → V → Prop)
+    (s0 : St α V Unit S)
+    (hkids : ∀ x p, Sub x → x ≠ r → parent x = some p → x ∈ kids p)
+    (h0e : ∀ x, ¬ s0.ent x) (h0l : ∀ x, ¬ s0.left x)
+    (hInit : J s0.ent s0.left s0.σ)
+    (hEnter : ∀ (E L : α → Prop) (σ : S) (x : α) (pre : Option V),
+        J E L σ → (∀ c, L c → E c) → (∀ c, E c → Sub c) → (∀ c p, E c → c ≠ r → parent c = some p → E p) →
+        Sub x → ¬ E x → ¬ L x →
+        ((x = r ∧ pre = none) ∨ (x ≠ r ∧ ∃ p v, parent x = some p ∧ E p ∧ ¬ L p ∧ pre = some v ∧ Qe σ p v)) →
+        J (fun y => y = x ∨ E y) L (f σ x pre).1 ∧ Qe (f σ x pre).1 x (f σ x pre).2 ∧
+        (∀ y v, E y → Qe σ y v → Qe (f σ x pre).1 y v))
+    (hSilent : ∀ (E L : α → Prop) (σ : S) (x : α),
+        J E L σ → (∀ c, L c → E c) → (∀ c, E c → Sub c) → (∀ c p, E c → c ≠ r → parent c = some p → E p) →
+        E x → ¬ L x → (∀ c, c ∈ kids x → E c ∧ L c) → (∀ p, x ≠ r → parent x = some p → E p ∧ ¬ L p) →
+        J E (fun y => y = x ∨ L y) σ)
+    (s : St α V Unit S) (hr : Reach parent kids Sub r f (fun σ _ _ => (σ, ())) s0 s)
+    (hallE : ∀ x, s.ent x ↔ Sub x) (hallL : ∀ x, s.left x ↔ Sub x) (hroot : Sub r) :
+    J Sub Sub s.σ := by
+  refine (traverse_rule_sound parent kids Sub r f (fun σ _ _ => (σ, ())) J Qe (fun _ _ _ => True) s0 hkids h0e h0l hInit ?_ ?_ s hr hallE hallL hroot).1
+  · intro E L σ x pre hJ hLE hES hEP hsub hne hnl hpre
+    have h := hEnter E L σ x pre hJ hLE hES hEP hsub hne hnl hpre
+    exact ⟨h.1, h.2.1, h.2.2, fun _ _ _ _ => trivial⟩
+  · intro E L σ x wv hJ hLE hES hEP hent hnl hk hpar _
+    exact ⟨hSilent E L σ x hJ hLE hES hEP hent hnl hk hpar, trivial, fun _ _ _ h => h, fun _ _ _ _ => trivial⟩
 
 end TraverseRule
